@@ -1,6 +1,7 @@
 package main
 
 import (
+	"go/types"
 	"fmt"
 	"strings"
 
@@ -43,6 +44,20 @@ func runC16(c *Ctx) {
 			_, _, v := storedField(st)
 			R.Ob(c.siteKey(st, "closer bound to this client"), c.P.InstrPos(st), describe(v) == "param0", "dataCloser.c is "+describe(v))
 		}
+	}
+
+	// the message octets reach the DotWriter unfiltered: Write is the promoted method of the embedded writer, the
+	// returned type declares no Write of its own (a wrapper that looks at one Write at a time makes the outcome
+	// depend on how the message is partitioned)
+	if dc := c.A.Named("dataCloser"); dc != nil {
+		ms := types.NewMethodSet(types.NewPointer(dc))
+		sel := ms.Lookup(dc.Obj().Pkg(), "Write")
+		promoted := sel != nil && len(sel.Index()) > 1
+		where := "-"
+		if sel != nil {
+			where = c.P.Pos(sel.Obj().Pos())
+		}
+		R.Ob("dataCloser/Write is the embedded writer's", where, promoted, "dataCloser declares its own Write method: the message passes through it before the DotWriter, one Write call at a time")
 	}
 
 	R.Rule("R-close-once", "E2", "dataCloser.Close: the closed test guards the end-of-data exchange, and closed=true is stored on every path that performed it before the function can return", 3)
